@@ -345,35 +345,16 @@ func ruleP07MergeOrderAll(p *Prog, r *Report) {
 	}
 	for name, acc := range map[string]ssa.Value{"values": vals, "blocks": blks} {
 		apps, _ := accWeb(acc)
-		var carry, batch ssa.Instruction
-		for _, a := range apps {
-			if len(a.Call.Args) < 2 || !inLoopBlock(a.Block()) {
-				continue
-			}
+		name := name
+		okOrder := carryBeforeBatch(parse, apps, func(a *ssa.Call) (bool, bool) {
 			src := strip(a.Call.Args[1])
 			if _, fld := fieldLoad(src); fld == name {
-				batch = a
+				return false, true
 			} else if mc, _ := callOf(src); mc != nil && sameFn(staticCallee(mc), mapParse) {
-				carry = a
+				return true, false
 			}
-		}
-		okOrder := false
-		if carry != nil && batch != nil {
-			var header *ssa.BasicBlock
-			for _, g := range guardsOf(batch.Block()) {
-				if isLoopGuard(g) {
-					header = g.If.Block()
-					break
-				}
-			}
-			if header != nil {
-				if carry.Block() == batch.Block() {
-					okOrder = instrIndex(carry) < instrIndex(batch)
-				} else {
-					okOrder = reachableWithout(carry.Block(), batch.Block(), header) && !reachableWithout(batch.Block(), carry.Block(), header)
-				}
-			}
-		}
+			return false, false
+		})
 		r.check(okOrder, rule, name, p.pos(parse.Pos()), "the carried text's "+name+" precede the batch's own "+name, "the merge does not append the carried text's "+name+" before the batch's own: records and blocks come out in a different order than from the serial parser")
 	}
 }
